@@ -252,8 +252,10 @@ func (s *Service) refreshAttesterDutiesForEpoch(ctx context.Context, epoch phase
 
 	cancelledJobs := make(map[phase0.Slot]bool)
 	// First thing we do is cancel all scheduled attestations jobs.
-	// Wait for any scheduling of attestations that is in progress to finish, so that its jobs are cancelled as well.
+	// Wait for any scheduling of attestations that is in progress to finish, so that its jobs are cancelled as well,
+	// and keep any other scheduling out until the replacement jobs are in place.
 	s.attesterDutiesMutex.Lock()
+	defer s.attesterDutiesMutex.Unlock()
 	for slot := s.chainTimeService.FirstSlotOfEpoch(epoch); slot < s.chainTimeService.FirstSlotOfEpoch(epoch+1); slot++ {
 		if err := s.scheduler.CancelJob(ctx, fmt.Sprintf("Attestations for slot %d", slot)); err == nil {
 			cancelledJobs[slot] = true
@@ -264,7 +266,6 @@ func (s *Service) refreshAttesterDutiesForEpoch(ctx context.Context, epoch phase
 			s.pendingAttestationsMutex.Unlock()
 		}
 	}
-	s.attesterDutiesMutex.Unlock()
 
 	accounts, validatorIndices, err := s.accountsAndIndicesForEpoch(ctx, epoch)
 	if err != nil {
@@ -281,10 +282,11 @@ func (s *Service) refreshAttesterDutiesForEpoch(ctx context.Context, epoch phase
 	// Reschedule attestations.
 	// Only reschedule current slot if its job was cancelled.
 	curentSlotJobCancelled := cancelledJobs[s.chainTimeService.CurrentSlot()]
-	go s.scheduleAttestations(ctx, epoch, validatorIndices, !curentSlotJobCancelled)
 
 	// Update beacon committee subscriptions for the next epoch.
 	go s.subscribeToBeaconCommittees(ctx, epoch, accounts)
+
+	s.scheduleAttestationsLocked(ctx, epoch, validatorIndices, !curentSlotJobCancelled)
 }
 
 // refreshSyncCommitteeDutiesForEpochPeriod refreshes sync committee duties for all epochs in the
